@@ -34,7 +34,7 @@ def job_pair(item):
         return None
     def model_of(ex):
         acc = []; SY.lazy_null_constraints(ex.u_a, acc); SY.lazy_null_constraints(ex.u_b, acc)
-        sat, m = eng.check(ex.pc + acc)
+        sat, m = SY.check_pinned(eng, ex.pc, acc)
         if not sat: return None
         return {'a': SY.tagged(ex, ex.u_a, m), 'b': SY.tagged(ex, ex.u_b, m), 'cmp': ex.u_cmp}, m
     def on_path(ex, r):
